@@ -268,6 +268,9 @@ class Result:
         self.samples = []
         self.evaluations = 0
         self.distinct = set()
+        self.quiet = False        # collect the VIOLATION / KNOWN-FINDING lines instead of printing them (check.py decides)
+        self.lines = []
+        self.report_tier = None   # tier written into the evidence when a search stage runs with larger sizes
         self.trusted = ['Lean 4.33.0 kernel', 'axioms: propext, Quot.sound, Classical.choice only (audited this run)',
                         'translators/harness in /verif (dump what the compiler saw; byte-exact correspondence)']
 
@@ -287,9 +290,12 @@ class Result:
 
     def finish(self, level='proof', checker_cmd='', extra=None):
         for path, name, no_input in self.violations:
-            print(f'VIOLATION property={self.prop} replay={path}' + (' no-failing-input-found' if no_input else ''), flush=True)
+            self.lines.append(f'VIOLATION property={self.prop} replay={path}' + (' no-failing-input-found' if no_input else ''))
         for k in self.known:
-            print(f'KNOWN-FINDING: property={self.prop} {k}', flush=True)
+            self.lines.append(f'KNOWN-FINDING: property={self.prop} {k}')
+        if not self.quiet:
+            for ln in self.lines:
+                print(ln, flush=True)
         cov = {
             'obligations': self.obligations,
             'discharged': self.discharged,
@@ -307,7 +313,7 @@ class Result:
             cov['explanation'] = 'no Lean theorems are registered for this property yet; this run only has the correspondence / oracle part'
         if extra:
             cov.update(extra)
-        ev = {'property_id': self.prop, 'tier': self.tier, 'seed': self.seed, 'level': level,
+        ev = {'property_id': self.prop, 'tier': self.report_tier or self.tier, 'seed': self.seed, 'level': level,
               'coverage': cov, 'assumptions': self.assumptions,
               'wall_s': round(time.time() - self.t0, 2), 'violations': len(self.violations)}
         os.makedirs(EVIDENCE, exist_ok=True)
